@@ -264,6 +264,6 @@ PROPS["C13"] = {
     "trusted_extra": ["modelled, not verified: futures-channel mpsc with capacity 0 and one sender (queue of at most one item, sender parked from push to pop, receiver AtomicWaker, closure on sender drop), futures-util Send / SendAll / Fuse, as transcribed in Omaha/Gen.lean — validated against the real crates by the gen stream on every run",
                       "the state-machine side (events in order, progress before outcome, no stall under a wake-only executor) is the sm stream of the other properties"] + SM_TRUSTED,
     "assumptions": ["a program cannot yield after dropping its handle (not expressible in Rust); the model skips such operations and the generator never produces them"],
-    "level_text": "Machine-checked Lean 4 theorems about Omaha.Gen, for every program and every schedule (by the invariant GInv over all reachable states: init_inv, runOps_post, pollTask_inv, pollNext_inv, fire_inv): stream_is_fifo (the items received are a prefix of the program's yields, in order: none lost, duplicated or reordered; drive_conserve: delivered ++ queued ++ still-to-push is always the yield sequence), completes_once + allOk_complete_all_items (Complete is returned at most once, only after every item, with the program's return value; before it only items or Pending, after it None forever), queue_at_most_one, no_progress_while_untaken (backpressure: while an emitted item is untaken, polling the task changes nothing — code after an emission runs only in a later poll than the one that delivered it), unwoken_pending_is_external_wait + fire_wakes + spurious_poll_pending (no_lost_wakeup: a Pending without a wake is a registered wait on an unfired external event whose firing wakes the task; every other Pending has already woken the root waker; spurious polls are harmless), runOps_settled / pollTask_settled; and runInstall_trace (SM model: every progress value, in order, directly after the install call and before its outcome is acted on). Tied to async_generator.rs by the gen stream (poll-by-poll, incl. wake flags) and to state_machine.rs by the sm stream under a wake-only executor.",
+    "level_text": "Machine-checked Lean 4 theorems about Omaha.Gen, for every program and every schedule (by the invariant GInv over all reachable states: init_inv, runOps_post, pollTask_inv, pollNext_inv, fire_inv): stream_is_fifo (the items received are a prefix of the program's yields, in order: none lost, duplicated or reordered; drive_conserve: delivered ++ queued ++ still-to-push is always the yield sequence), completes_once + allOk_complete_all_items (Complete is returned at most once, only after every item, with the program's return value; before it only items or Pending, after it None forever), queue_at_most_one, no_progress_while_untaken (backpressure: while an emitted item is untaken, polling the task changes nothing — code after an emission runs only in a later poll than the one that delivered it), unwoken_pending_is_external_wait + fire_wakes + spurious_poll_pending (no_lost_wakeup: a Pending without a wake is a registered wait on an unfired external event whose firing wakes the task; every other Pending has already woken the root waker; spurious polls are harmless), runOps_settled / pollTask_is_settled; and runInstall_trace (SM model: every progress value, in order, directly after the install call and before its outcome is acted on). Tied to async_generator.rs by the gen stream (poll-by-poll, incl. wake flags) and to state_machine.rs by the sm stream under a wake-only executor.",
     "level_note": "Trusted: Lean kernel; the hand-written model of the channel and of poll_next; harness and diff. Partial: liveness under fairness (strict_executor_live) is not stated as a theorem — its safety core (no_lost_wakeup) is; into_yielded / into_complete / into_try_stream are thin filters over the same stream and are not modelled.",
 }
